@@ -23,6 +23,7 @@ ck.bounds = {'lock table': f'0..{NL} entries', 'reverse index (tx -> keys)': f'0
 ck.assumptions = [
     'one operation from an arbitrary table satisfying the representation invariant I: every lock entry (expired or not) is listed under its transaction in the reverse index',
     'next_lock_handle returns a handle different from every handle in the table (the counter is monotonic)',
+    'K11: two lock entries with the same handle belong to the same transaction (a handle is issued by one try_lock call)',
     'now_epoch_millis / SystemTime::now: fresh non-decreasing readings (each is_expired call may see a later clock)',
     'HashMap iteration: insertion order (quick) / all orders (thorough)',
     'NOT decided: thread interleavings (the "schedules" half), detect_cycles = "cycle exists" (would be graph enumeration), release_orphaned_locks, serialize/restore',
@@ -153,6 +154,8 @@ ck.declare('K1_conflict_refused_nothing_acquired', 'try_lock', 'Err(h) => some r
 ck.declare('K2_grant_all_or_nothing', 'try_lock', 'Ok(handle) => every requested key is owned by the requester under the new handle, every other entry is unchanged, and no requested key was held by an unexpired lock of another transaction')
 ck.declare('K3_release_leaves_nothing', 'release / release_by_handle / cleanup_expired', 'after release(tx) no entry of tx remains in either table; after release_by_handle(h) no lock with handle h remains; cleanup removes only expired locks; other entries untouched')
 ck.declare('K4_invariant_preserved', 'every operation', 'the representation invariant I holds again afterwards')
+ck.declare('K11_released_tx_leaves_graph', 'release_by_handle_with_wait_cleanup / cleanup_expired_with_wait_cleanup (WaitForGraph::remove_transaction recorded)',
+           'exactly the locks of the handle / the expired locks are removed, every transaction that lost a lock is removed from the wait-for graph, and no other transaction is')
 ck.declare('K6_holder_reports_truth', 'lock_holder', 'Some(t) => the key has an unexpired entry of transaction t; None => no unexpired entry')
 granted = conflicts = 0
 for nl, tv in shapes():
@@ -278,6 +281,52 @@ if granted == 0 or conflicts == 0:
     ck.inconclusive.append(f'vacuous: try_lock granted on {granted} paths, refused on {conflicts}')
 ck.notes.append(f'try_lock: granted on {granted} paths, refused on {conflicts} paths')
 
+# the reverse index may list keys a transaction no longer owns (taken over after expiry): shapes with two listed keys
+K11_SHAPES = list(shapes()) + [s_ for s_ in [(1, [2]), (2, [2]), (2, [2, 1])] if s_ not in [(a_, b_) for a_, b_ in shapes()]]
+for nl, tv in K11_SHAPES:
+    # ---------------- the wait-graph flavours: whoever loses its locks here also leaves the wait-for graph
+    for call in ('release_by_handle_with_wait_cleanup', 'cleanup_expired_with_wait_cleanup'):
+        st = ex.new_state()
+        tb = Table(st, nl, tv)
+        hh = Int(z3.BitVec('rel_h', 64), False)
+        graph = Struct('WaitForGraph', {}, lazy='WG')
+        # a handle is issued by one try_lock call, i.e. to one transaction
+        for i, j in itertools.combinations(range(nl), 2):
+            st.assume(z3.Implies(tb.h[i] == tb.h[j], tb.tx[i] == tb.tx[j]))
+        args = [ref(st.roots['lm'])] + ([hh] if call.startswith('release') else []) + [ref(graph)]
+        # the graph itself is decided by K7-K10; here its remove_transaction only records who it was told to forget
+        ex.extra_models['WaitForGraph::remove_transaction'] = lambda c: (c.st.notes.append(('graph_remove', c.args[1].v)), UNIT)[1]
+        try:
+            res = run(st, 'LockManager::' + call, args)
+        finally:
+            del ex.extra_models['WaitForGraph::remove_transaction']
+        ck.note_path_problem(res, f'{call} locks={nl} tx_locks={tv}')
+        for r in res:
+            wit = lambda m, tb=tb, call=call, r=r: {'op': call, 'handle': mval(m, hh.v), 'table': tb.dump(m), 'clock': [mval(m, c) for c in r.st.env.get('clock_readings', [])]}
+            if r.status != 'return':
+                if r.status == 'panic':
+                    ck.require(ex, 'K11_released_tx_leaves_graph', r.pc, None, z3.BoolVal(False), wit, lambda m, w: 'wait-cleanup-panic')
+                continue
+            L, Tm = post_tables(r.st)
+            removed_from_graph = [x[1] for x in r.st.notes if x[0] == 'graph_remove']
+            cs = []
+            for i in range(nl):
+                pres, t, h = lookup(L, tb.keys[i].id)
+                gone = z3.Not(pres)
+                told = z3.Or([g == tb.tx[i] for g in removed_from_graph]) if removed_from_graph else z3.BoolVal(False)
+                if call.startswith('release'):
+                    cs.append(gone == (tb.h[i] == hh.v))
+                else:
+                    cs.append(z3.Implies(gone, expired_at_some(r.st, tb.acq[i], tb.tmo[i])))
+                    cs.append(z3.Implies(pres, unexpired_at_some(r.st, tb.acq[i], tb.tmo[i])))
+                cs.append(z3.Implies(gone, told))
+                cs.append(z3.Implies(pres, z3.And(t == tb.tx[i], h == tb.h[i])))
+            # nobody else is thrown out of the graph
+            for g in removed_from_graph:
+                cs.append(z3.Or([z3.And(g == tb.tx[i], z3.Not(lookup(L, tb.keys[i].id)[0])) for i in range(nl)] + [z3.BoolVal(False)]))
+            ck.require(ex, 'K11_released_tx_leaves_graph', r.pc, None, z3.And(cs) if cs else z3.BoolVal(True), wit, lambda m, w: 'wait-cleanup')
+            ck.require(ex, 'K4_invariant_preserved', r.pc, None, invariant(L, Tm), wit, lambda m, w: 'invariant-wait-cleanup')
+
 exec(open(os.path.join(os.path.dirname(os.path.abspath(__file__)), 'c12_graph.py')).read())
 
 # ------------------------------------------------------------------ native replay (tables built through from_serializable)
@@ -320,6 +369,18 @@ def _concrete_violation(w, rep):
     elif op == 'lock_holder':
         live = {kn(l['key']): l['tx'] for l in w['table']['locks'] if not l.get('expired')}
         bad = bad or rep['result'].get('holder') != live.get(kn(w['key']))
+    elif op in ('release_by_handle_with_wait_cleanup', 'cleanup_expired_with_wait_cleanup'):
+        if op.startswith('release'):
+            lost = {l['tx'] for l in before.values() if l['handle'] == w['handle']}
+            bad = bad or any(l['handle'] == w['handle'] for l in after.values())
+        else:
+            exp = {kn(l['key']) for l in w['table']['locks'] if l.get('expired')}
+            lost = {l['tx'] for k, l in before.items() if k in exp}
+            bad = bad or set(after) != set(before) - exp
+        in_graph = set(rep['result'].get('still_in_graph', []))
+        everyone = {l['tx'] for l in before.values()}
+        # whoever lost a lock is out of the wait-for graph, everybody else is still in it
+        bad = bad or bool(lost & in_graph) or bool((everyone - lost) - in_graph)
     return bad
 
 
